@@ -80,11 +80,19 @@ func fnExprJS(e *sx) string {
 		return "(delete " + fnExprJS(a[0]) + "." + a[1].name + ")"
 	case "dlv":
 		return "(delete " + a[0].name + ")"
+	case "dlx":
+		return "(delete (" + fnExprJS(a[0]) + "))"
+	case "cnd":
+		return "(" + fnExprJS(a[0]) + " ? " + fnExprJS(a[1]) + " : " + fnExprJS(a[2]) + ")"
 	case "dle":
 		return "(delete " + fnExprJS(a[0]) + "[" + fnExprJS(a[1]) + "])"
 	case "c":
 		if a[0].name == "v" {
 			return a[0].args[0].name + "(" + fnArgsJS(a[1]) + ")"
+		}
+		if a[0].name == "cnd" {
+			// a conditional is called as it stands: its result must be a value already (11.12)
+			return fnExprJS(a[0]) + "(" + fnArgsJS(a[1]) + ")"
 		}
 		return "(0, " + fnExprJS(a[0]) + ")(" + fnArgsJS(a[1]) + ")"
 	case "mc":
@@ -135,9 +143,15 @@ func fnExprJS(e *sx) string {
 			a[2].args[0].args[0].name == "c" && a[2].args[0].args[0].args[0].name == "v" && len(a[2].args[0].args[0].args[1].args) == 0 {
 			return "hostCall(" + strconv.Quote(a[2].args[0].args[0].args[0].args[0].name) + ")"
 		}
-		// two spellings of an indirect call of eval, chosen by the shape of the term
-		if sxLen(e)%2 == 1 {
+		// four spellings of an indirect call of eval, chosen by the shape of the term: only a call through the
+		// identifier `eval` is direct (15.1.2.1.1), not a member call and not the value of a conditional
+		switch sxLen(e) % 4 {
+		case 1:
 			return "eval.call(null, " + strconv.Quote(fnBodyJS(a[0], a[1], a[2])) + ")"
+		case 2:
+			return "({eval: eval}).eval(" + strconv.Quote(fnBodyJS(a[0], a[1], a[2])) + ")"
+		case 3:
+			return "(1 ? eval : 0)(" + strconv.Quote(fnBodyJS(a[0], a[1], a[2])) + ")"
 		}
 		return "(0, eval)(" + strconv.Quote(fnBodyJS(a[0], a[1], a[2])) + ")"
 	case "u":
